@@ -16,6 +16,8 @@ definition by definition:
 | `makeUniformEnum` | `random/distribution/parameters/make_uniform_enum_advanced.hpp` |
 | `makeUniformIndices` | `random/distribution/parameters/make_uniform_indices_advanced.hpp` |
 | `UniformContainer.*`, `makeUniformContainer` | `random/wrapper/uniform_container_impl.hpp`, `make_uniform_container_advanced.hpp` |
+| `Act`, `stepF`, `runScriptF` (`stepS`, `runScriptS`: the same program against the bare std distribution) | programs over several `basic` / `variate` objects and one generator: implicit copy / move / assignment of `basic_decl.hpp`, `variate_decl.hpp` (value member `distribution_`, reference member `generator_`), `operator==`, `operator<<`, `min`/`max` |
+| `CAct`, `cstep`, `runCScript` | programs over several `uniform_container`s on one container (`container_` is a `fcppt::reference`, `distribution_` a value member) |
 
 Values of the arithmetic base type are an arbitrary type `β` (`Int` for the integer types — fcppt
 performs no arithmetic on them except `size() - 1U` in `make_uniform_indices`, which is guarded by
@@ -287,5 +289,288 @@ end UniformContainer
 `optional::map(make_uniform_indices_advanced(container), λ params. uniform_container(container, params))` -/
 def makeUniformContainer {α δ : Type} (D : StdDist Int δ) (c : List α) : Option (UniformContainer α δ) :=
   (makeUniformIndices c).map (fun p => UniformContainer.ctor D c p)
+
+/-! ## scripts: several distribution objects, several variates, two generators
+
+What a program can do with the public interface of `distribution::basic` and `variate` when it holds
+several objects at once: construct, copy (copy construction, copy assignment and — the wrapped standard
+distributions being plain aggregates of scalars — move), swap, draw in any interleaving, `reset()`,
+`param(p)`, compare, read `min()`/`max()`, build variates from a distribution *in whatever state it is*,
+copy and assign variates (the target then refers to the *source's* generator), and call the generators
+directly in between.  There are two generators of the same type (`false` / `true`), so that "which generator
+does this variate refer to" is observable.  Objects live in numbered slots; using an empty slot is outside every precondition
+(`emptyDeref`). -/
+
+/-- one step of a script -/
+inductive Act (β : Type) where
+  | newP (i : Nat) (p : Param2 β)          -- `D_i = basic(p)` (also `make_basic(p)`)
+  | new2 (i : Nat) (t1 t2 : DVal β)        -- `D_i = basic(t1, t2)`
+  | copy (i j : Nat) (assign : Bool)       -- `D_i(D_j)` / `D_i = D_j` (`assign`: `D_i` must exist)
+  | swap (i j : Nat)                        -- `std::swap(D_i, D_j)`
+  | draw (i : Nat) (w : Bool)               -- `D_i(gen_w)`
+  | reset (i : Nat)                         -- `D_i.reset()`
+  | setParam (i : Nat) (p : Param2 β)      -- `D_i.param(p)`
+  | eq (i j : Nat)                          -- `D_i == D_j`
+  | look (i : Nat)                          -- `D_i.min()`, `D_i.max()`, `D_i.distribution().param()`, `os << D_i`
+  | varD (k i : Nat) (w : Bool)             -- `V_k = variate(ref(gen_w), D_i)` (also `make_variate`)
+  | varP (k : Nat) (p : Param2 β) (w : Bool)  -- `V_k = variate(ref(gen_w), p)`
+  | varCopy (k l : Nat) (assign : Bool)    -- `V_k(V_l)` / `V_k = V_l`
+  | vdraw (k : Nat)                         -- `V_k()`
+  | raw (w : Bool)                          -- `gen_w()`
+  deriving Repr
+
+/-- what a step lets the program observe; `ν` is the type of drawn values (`DVal β` on the fcppt side,
+`β` on the std side) -/
+inductive Ev (ν β : Type) where
+  | val (v : ν)
+  | raw (n : Nat)
+  | eq (b : Bool)
+  | look (mn mx : ν) (p : β × β) (out : String)
+  deriving Repr, DecidableEq
+
+def Ev.map {ν ν' β : Type} (f : ν → ν') : Ev ν β → Ev ν' β
+  | .val v => .val (f v)
+  | .raw n => .raw n
+  | .eq b => .eq b
+  | .look mn mx p o => .look (f mn) (f mx) p o
+
+def upd {α : Type} (f : Nat → Option α) (i : Nat) (v : Option α) : Nat → Option α :=
+  fun n => if n = i then v else f n
+
+/-- the objects of the fcppt side -/
+structure ObjsF (δ : Type) where
+  dist : Nat → Option (Basic δ)
+  var : Nat → Option (Variate δ × Bool)    -- the variate and which generator its `generator_` refers to
+
+/-- the objects of the std side: a "variate" is a copy of the distribution and the engine it is used with -/
+structure ObjsS (δ : Type) where
+  dist : Nat → Option δ
+  var : Nat → Option (δ × Bool)
+
+def ObjsF.empty {δ : Type} : ObjsF δ := ⟨fun _ => none, fun _ => none⟩
+def ObjsS.empty {δ : Type} : ObjsS δ := ⟨fun _ => none, fun _ => none⟩
+
+/-- forget the fcppt wrappers -/
+def ObjsF.erase {δ : Type} (s : ObjsF δ) : ObjsS δ :=
+  ⟨fun n => (s.dist n).map (·.dist), fun n => (s.var n).map (fun v => (v.1.distribution.dist, v.2))⟩
+
+def need {α : Type} : Option α → M α
+  | some a => .ok a
+  | none => .error .emptyDeref
+
+/-- the two generator states; `pick w` is the one a reference with tag `w` refers to -/
+def pick {γ : Type} (w : Bool) (gs : γ × γ) : γ := if w then gs.2 else gs.1
+def put {γ : Type} (w : Bool) (gs : γ × γ) (g : γ) : γ × γ := if w then (gs.1, g) else (g, gs.2)
+
+section script
+variable {β δ γ : Type}
+
+/-- fcppt side of one step.  `out` is `operator<<` of the wrapped distribution (a parameter like the
+distribution itself): `basic`'s `operator<<` is `stream << dist.distribution()`. -/
+def stepF (D : StdDist β δ) (out : δ → String) (ty : Ty) (G : Gen γ) (a : Act β) (s : ObjsF δ) (g : γ × γ) :
+    M (List (Ev (DVal β) β) × ObjsF δ × (γ × γ)) :=
+  match a with
+  | .newP i p => .ok ([], { s with dist := upd s.dist i (some (Basic.ctor D p)) }, g)
+  | .new2 i t1 t2 => .ok ([], { s with dist := upd s.dist i (some (Basic.ctor2 D t1 t2)) }, g)
+  | .copy i j assign =>
+    match s.dist j, (if assign then (s.dist i).isSome else true) with
+    | some d, true => .ok ([], { s with dist := upd s.dist i (some d) }, g)
+    | _, _ => .error .emptyDeref
+  | .swap i j =>
+    match s.dist i, s.dist j with
+    | some di, some dj => .ok ([], { s with dist := upd (upd s.dist i (some dj)) j (some di) }, g)
+    | _, _ => .error .emptyDeref
+  | .draw i w =>
+    match s.dist i with
+    | some d =>
+      let r := Basic.draw D ty G d (pick w g)
+      .ok ([.val r.1], { s with dist := upd s.dist i (some r.2.1) }, put w g r.2.2)
+    | none => .error .emptyDeref
+  | .reset i =>
+    match s.dist i with
+    | some d => .ok ([], { s with dist := upd s.dist i (some (Basic.reset D d)) }, g)
+    | none => .error .emptyDeref
+  | .setParam i p =>
+    match s.dist i with
+    | some d => .ok ([], { s with dist := upd s.dist i (some (Basic.setParam D d p)) }, g)
+    | none => .error .emptyDeref
+  | .eq i j =>
+    match s.dist i, s.dist j with
+    | some di, some dj => .ok ([.eq (Basic.eq D di dj)], s, g)
+    | _, _ => .error .emptyDeref
+  | .look i =>
+    match s.dist i with
+    | some d => .ok ([.look (Basic.min D ty d) (Basic.max D ty d) (D.param d.dist) (out d.dist)], s, g)
+    | none => .error .emptyDeref
+  | .varD k i w =>
+    match s.dist i with
+    | some d => .ok ([], { s with var := upd s.var k (some (Variate.ctor d, w)) }, g)
+    | none => .error .emptyDeref
+  | .varP k p w => .ok ([], { s with var := upd s.var k (some (Variate.ctorParam D p, w)) }, g)
+  | .varCopy k l assign =>
+    match s.var l, (if assign then (s.var k).isSome else true) with
+    | some v, true => .ok ([], { s with var := upd s.var k (some v) }, g)
+    | _, _ => .error .emptyDeref
+  | .vdraw k =>
+    match s.var k with
+    | some v =>
+      let r := Variate.draw D ty G v.1 (pick v.2 g)
+      .ok ([.val r.1], { s with var := upd s.var k (some (r.2.1, v.2)) }, put v.2 g r.2.2)
+    | none => .error .emptyDeref
+  | .raw w =>
+    let r := G.next (pick w g)
+    .ok ([.raw r.1], s, put w g r.2)
+
+/-- std side of one step: the same program written against the bare standard distribution, parameters
+given in the base type -/
+def stepS (D : StdDist β δ) (out : δ → String) (G : Gen γ) (a : Act β) (s : ObjsS δ) (g : γ × γ) :
+    M (List (Ev β β) × ObjsS δ × (γ × γ)) :=
+  match a with
+  | .newP i p => .ok ([], { s with dist := upd s.dist i (some (D.ofParam (undecorate p.fst, undecorate p.snd))) }, g)
+  | .new2 i t1 t2 => .ok ([], { s with dist := upd s.dist i (some (D.ofParam (undecorate t1, undecorate t2))) }, g)
+  | .copy i j assign =>
+    match s.dist j, (if assign then (s.dist i).isSome else true) with
+    | some d, true => .ok ([], { s with dist := upd s.dist i (some d) }, g)
+    | _, _ => .error .emptyDeref
+  | .swap i j =>
+    match s.dist i, s.dist j with
+    | some di, some dj => .ok ([], { s with dist := upd (upd s.dist i (some dj)) j (some di) }, g)
+    | _, _ => .error .emptyDeref
+  | .draw i w =>
+    match s.dist i with
+    | some d =>
+      let r := D.draw G d (pick w g)
+      .ok ([.val r.1], { s with dist := upd s.dist i (some r.2.1) }, put w g r.2.2)
+    | none => .error .emptyDeref
+  | .reset i =>
+    match s.dist i with
+    | some d => .ok ([], { s with dist := upd s.dist i (some (D.reset d)) }, g)
+    | none => .error .emptyDeref
+  | .setParam i p =>
+    match s.dist i with
+    | some d => .ok ([], { s with dist := upd s.dist i (some (D.setParam d (undecorate p.fst, undecorate p.snd))) }, g)
+    | none => .error .emptyDeref
+  | .eq i j =>
+    match s.dist i, s.dist j with
+    | some di, some dj => .ok ([.eq (D.beq di dj)], s, g)
+    | _, _ => .error .emptyDeref
+  | .look i =>
+    match s.dist i with
+    | some d => .ok ([.look (D.min d) (D.max d) (D.param d) (out d)], s, g)
+    | none => .error .emptyDeref
+  | .varD k i w =>
+    match s.dist i with
+    | some d => .ok ([], { s with var := upd s.var k (some (d, w)) }, g)
+    | none => .error .emptyDeref
+  | .varP k p w => .ok ([], { s with var := upd s.var k (some (D.ofParam (undecorate p.fst, undecorate p.snd), w)) }, g)
+  | .varCopy k l assign =>
+    match s.var l, (if assign then (s.var k).isSome else true) with
+    | some v, true => .ok ([], { s with var := upd s.var k (some v) }, g)
+    | _, _ => .error .emptyDeref
+  | .vdraw k =>
+    match s.var k with
+    | some v =>
+      let r := D.draw G v.1 (pick v.2 g)
+      .ok ([.val r.1], { s with var := upd s.var k (some (r.2.1, v.2)) }, put v.2 g r.2.2)
+    | none => .error .emptyDeref
+  | .raw w =>
+    let r := G.next (pick w g)
+    .ok ([.raw r.1], s, put w g r.2)
+
+def runScriptF (D : StdDist β δ) (out : δ → String) (ty : Ty) (G : Gen γ) :
+    List (Act β) → ObjsF δ → γ × γ → M (List (Ev (DVal β) β) × ObjsF δ × (γ × γ))
+  | [], s, g => .ok ([], s, g)
+  | a :: as, s, g =>
+    match stepF D out ty G a s g with
+    | .error f => .error f
+    | .ok r =>
+      match runScriptF D out ty G as r.2.1 r.2.2 with
+      | .error f => .error f
+      | .ok rs => .ok (r.1 ++ rs.1, rs.2.1, rs.2.2)
+
+def runScriptS (D : StdDist β δ) (out : δ → String) (G : Gen γ) :
+    List (Act β) → ObjsS δ → γ × γ → M (List (Ev β β) × ObjsS δ × (γ × γ))
+  | [], s, g => .ok ([], s, g)
+  | a :: as, s, g =>
+    match stepS D out G a s g with
+    | .error f => .error f
+    | .ok r =>
+      match runScriptS D out G as r.2.1 r.2.2 with
+      | .error f => .error f
+      | .ok rs => .ok (r.1 ++ rs.1, rs.2.1, rs.2.2)
+
+end script
+
+/-! ## container scripts: several `uniform_container`s over one container that the program keeps modifying
+
+`uniform_container` holds a *reference* to the container: it sees every later modification of the elements,
+and what it returns is a reference into the container (the program may write through it).  The container's
+size never changes while wrappers exist (that would invalidate the index interval: outside the
+precondition). -/
+
+inductive CAct (α : Type) where
+  | make (i : Nat)                      -- `U_i = make_uniform_container_advanced(ref(c))` (nothing for an empty `c`)
+  | ctor (i : Nat) (p : Param2 Int)     -- `U_i = uniform_container(ref(c), p)`
+  | copy (i j : Nat) (assign : Bool)    -- `U_i(U_j)` / `U_i = U_j`
+  | draw (i : Nat)                      -- `U_i(gen)`
+  | write (pos : Nat) (x : α)           -- `c[pos] = x`
+  | drawWrite (i : Nat) (x : α)         -- `U_i(gen) = x` (container not const)
+  | raw                                 -- `gen()`: the program calls the generator itself
+  deriving Repr
+
+/-- observation: whether the factory returned a wrapper; the element returned by a draw and the index it has
+in the container -/
+inductive CEv (α : Type) where
+  | made (b : Bool)
+  | elem (e : α) (idx : Nat)
+  | raw (n : Nat)
+  deriving Repr, DecidableEq
+
+section cscript
+variable {α δ γ : Type}
+
+def cstep (D : StdDist Int δ) (G : Gen γ) (a : CAct α) (c : List α) (s : Nat → Option (Basic δ)) (g : γ) :
+    M (List (CEv α) × List α × (Nat → Option (Basic δ)) × γ) :=
+  match a with
+  | .make i =>
+    match makeUniformContainer D c with
+    | some u => .ok ([.made true], c, upd s i (some u.distribution), g)
+    | none => .ok ([.made false], c, upd s i none, g)
+  | .ctor i p => .ok ([], c, upd s i (some (UniformContainer.ctor D c p).distribution), g)
+  | .copy i j assign =>
+    match s j, (if assign then (s i).isSome else true) with
+    | some d, true => .ok ([], c, upd s i (some d), g)
+    | _, _ => .error .emptyDeref
+  | .draw i =>
+    match s i with
+    | some d =>
+      match UniformContainer.draw D G ⟨c, d⟩ g with
+      | .ok r => .ok ([.elem r.1.1 r.1.2], c, upd s i (some r.2.1.distribution), r.2.2)
+      | .error f => .error f
+    | none => .error .emptyDeref
+  | .write pos x => if pos < c.length then .ok ([], c.set pos x, s, g) else .error .oob
+  | .drawWrite i x =>
+    match s i with
+    | some d =>
+      match UniformContainer.draw D G ⟨c, d⟩ g with
+      | .ok r => .ok ([.elem r.1.1 r.1.2], c.set r.1.2 x, upd s i (some r.2.1.distribution), r.2.2)
+      | .error f => .error f
+    | none => .error .emptyDeref
+  | .raw =>
+    let r := G.next g
+    .ok ([.raw r.1], c, s, r.2)
+
+def runCScript (D : StdDist Int δ) (G : Gen γ) :
+    List (CAct α) → List α → (Nat → Option (Basic δ)) → γ → M (List (CEv α) × List α × (Nat → Option (Basic δ)) × γ)
+  | [], c, s, g => .ok ([], c, s, g)
+  | a :: as, c, s, g =>
+    match cstep D G a c s g with
+    | .error f => .error f
+    | .ok r =>
+      match runCScript D G as r.2.1 r.2.2.1 r.2.2.2 with
+      | .error f => .error f
+      | .ok rs => .ok (r.1 ++ rs.1, rs.2.1, rs.2.2.1, rs.2.2.2)
+
+end cscript
 
 end Fcppt.C20
